@@ -3724,7 +3724,12 @@ func (a *Association) resetOutgoingStreamSequenceNumbers(reconfigRequestSequence
 		return
 	}
 	for _, id := range resetRequest.streamIdentifiers {
-		if s, ok := a.streams[id]; ok {
+		// A request is only ever sent by Stream.Close, so the stream it was sent for
+		// is no longer open. An open stream registered under the identifier is a new
+		// one created after the reset was performed (the response is late or was
+		// re-sent): its sequence numbers already started at zero and must not be
+		// rewound in the middle of the stream.
+		if s, ok := a.streams[id]; ok && s.State() != StreamStateOpen {
 			s.resetOutgoingStreamSequenceNumbers()
 		}
 	}
